@@ -147,4 +147,11 @@ impl S {
             Ok(0)
         }
     }
+
+    // the closures of this function are NOT in rules/known_fns.txt (tools/mkknown.py): their calls are projected onto the creating block
+    pub fn unk_closure_guarded(&mut self, xs: &[u32]) {
+        if self.flag {
+            xs.iter().filter(|&&x| x != 0).for_each(|&x| self.v.push(x));
+        }
+    }
 }
